@@ -640,6 +640,59 @@ def faulty_poll_job(job):
     return acc
 
 
+def es_register_settings_job(job):
+    """ES family, register-addressed settings (eco-mode groups and their switches, read one by one over AA55 or Modbus): read_setting(id)
+    returns the reference reading of the setting's own registers in the simulator, for generated register contents."""
+    from vlib import siminv
+    from vlib.harness import run_sync
+    from checks.c17 import group_value_ok
+    seed, = job
+    acc = Acc()
+    for fw in (b"02041", b"02047", b"2214E"):
+        for k in range(24):
+            cfg = {"family": "ES", "serial": b"95048ESU000W0000", "firmware": fw}
+            inv, sim = siminv.build_direct(cfg, default=lambda a, k=k: mix(seed, k, a) & 0xFFFF)
+            run_sync(inv.read_device_info())
+            for sid, st in list(inv._settings.items()):
+                if st.offset <= 255:
+                    continue
+                tn = rs.type_name(st)
+                nreg = max(1, (st.size_ + 1) // 2)
+                # a decodable group / switch word in the setting's registers (k selects the fields)
+                if tn in ("EcoModeV1",):
+                    raw = bytes((k % 24, (k * 7) % 60, (k + 5) % 24, (k * 11) % 60)) + ((k * 3) % 101).to_bytes(2, "big", signed=False) + bytes(((0xFF, 0x00)[k % 2], (k * 5) % 128))
+                elif tn in rs.GROUPS:
+                    continue        # v2 groups: covered at table level and by C17 / C19
+                else:
+                    raw = bytes(((k * 37) & 0xFF, (k * 91 + 3) & 0xFF))
+                if st.offset > 30000:
+                    sim.modbus.set_bytes(st.offset, raw[:2 * nreg].ljust(2 * nreg, b"\0"))
+                else:
+                    for i in range(nreg):
+                        sim.reg_set(st.offset + i, int.from_bytes(raw[2 * i:2 * i + 2].ljust(2, b"\0"), "big"))
+                acc.case()
+                acc.nontrivial("es-setting", fw, sid, raw)
+                case = {"es_settings": True, "seed": seed}
+                try:
+                    got = run_sync(inv.read_setting(sid))
+                except ValueError:
+                    acc.cls("es-setting|ValueError")
+                    continue
+                except Exception as ex:
+                    acc.fail("C12|es-setting|%s" % type(ex).__name__, "read_setting(%r) raised %r" % (sid, ex), case)
+                    continue
+                if tn == "EcoModeV1":
+                    ok = group_value_ok(got, raw, tn)
+                    if ok is not True:
+                        acc.fail("C12|es-setting|EcoModeV1|value-differs", "read_setting(%r) with registers %s: %s" % (sid, raw.hex(), ok), case)
+                elif tn in ("ByteH", "Byte"):
+                    want = int.from_bytes(raw[0:1], "big", signed=True)
+                    if got != want:
+                        acc.fail("C12|es-setting|%s|value-differs" % tn, "read_setting(%r) = %r, register word %s, its high byte is %r" % (sid, got, raw.hex(), want), case)
+    acc.sample({"es_settings": True, "seed": seed})
+    return acc
+
+
 def overlap_job(job):
     """Two single-value reads overlap on one inverter object (the same id twice, two ids on the same register, an id and the bulk
     read): each call still returns the documented reading of its own registers - computed here from the simulator's register file by
@@ -706,6 +759,8 @@ def overlap_job(job):
 
 
 def run(ctx):
+    ctx.shard(es_register_settings_job, [(ctx.seed + k,) for k in range(ctx.pick(1, 4))],
+              "ES register-addressed settings (eco-mode v1 groups, switches) read one by one: value = reference reading of the setting's own registers")
     ctx.shard(faulty_poll_job, [(ci, ctx.seed + k) for ci in range(len(FOREIGN_CONFIGS)) for k in range(ctx.pick(1, 3))],
               "API level: a poll in which request k fails (no answer / busy), then clean polls - every typed value a poll returns equals the reference reading of its own registers")
     ctx.shard(overlap_job, [(ci, ctx.seed + k) for ci in range(len(FOREIGN_CONFIGS)) for k in range(ctx.pick(1, 4))],
@@ -756,6 +811,9 @@ def replay(ctx, case):
         return
     if case.get("overlap"):
         ctx.acc.merge(overlap_job((case["config"], case["salt"])))
+        return
+    if case.get("es_settings"):
+        ctx.acc.merge(es_register_settings_job((case["seed"],)))
         return
     if case.get("faulty_poll"):
         ctx.acc.merge(faulty_poll_job((case["config"], case["salt"])))
